@@ -10,111 +10,8 @@ sys.path.insert(0, os.path.dirname(os.path.dirname(os.path.abspath(__file__))))
 from pta.model import load_sources
 from pta import core
 
-CMP = {ast.Lt: [ast.LtE, ast.Gt], ast.LtE: [ast.Lt, ast.GtE], ast.Gt: [ast.GtE, ast.Lt], ast.GtE: [ast.Gt, ast.LtE], ast.Eq: [ast.NotEq], ast.NotEq: [ast.Eq],
-       ast.In: [ast.NotIn], ast.NotIn: [ast.In], ast.Is: [ast.IsNot], ast.IsNot: [ast.Is]}
-BIN = {ast.Add: [ast.Sub], ast.Sub: [ast.Add], ast.LShift: [ast.RShift], ast.RShift: [ast.LShift], ast.BitAnd: [ast.BitOr], ast.BitOr: [ast.BitAnd],
-       ast.FloorDiv: [ast.Mod], ast.Mod: [ast.FloorDiv], ast.Mult: [ast.Add]}
-
-
-def sites(fn):
-    """yield (description, mutate(node_copy_root) -> None) closures addressed by node index in ast.walk order"""
-    nodes = list(ast.walk(fn))
-    for i, n in enumerate(nodes):
-        if isinstance(n, ast.Compare):
-            for j, op in enumerate(n.ops):
-                for alt in CMP.get(type(op), []):
-                    yield ("cmp %s->%s @%d" % (type(op).__name__, alt.__name__, n.lineno), i, ("cmp", j, alt))
-        elif isinstance(n, ast.BinOp):
-            if isinstance(n.op, ast.Mod) and isinstance(n.left, ast.Constant) and isinstance(n.left.value, str):
-                continue  # string formatting
-            for alt in BIN.get(type(n.op), []):
-                yield ("bin %s->%s @%d" % (type(n.op).__name__, alt.__name__, n.lineno), i, ("bin", alt))
-        elif isinstance(n, ast.BoolOp):
-            alt = ast.Or if isinstance(n.op, ast.And) else ast.And
-            yield ("bool %s->%s @%d" % (type(n.op).__name__, alt.__name__, n.lineno), i, ("bool", alt))
-        elif isinstance(n, ast.UnaryOp) and isinstance(n.op, ast.Not):
-            yield ("drop not @%d" % n.lineno, i, ("dropnot",))
-        elif isinstance(n, ast.Constant) and not isinstance(n.value, str):
-            v = n.value
-            if isinstance(v, bool):
-                yield ("const %r->%r @%d" % (v, not v, n.lineno), i, ("const", not v))
-            elif isinstance(v, int):
-                for w in (v + 1, v - 1):
-                    yield ("const %r->%r @%d" % (v, w, n.lineno), i, ("const", w))
-            elif isinstance(v, bytes):
-                w = b"\x00" if v == b"" else b""
-                yield ("const %r->%r @%d" % (v, w, n.lineno), i, ("const", w))
-            elif v is None:
-                pass
-        elif isinstance(n, ast.If) and not (isinstance(n.test, ast.UnaryOp) and isinstance(n.test.op, ast.Not)):
-            yield ("negate if @%d" % n.lineno, i, ("negif",))
-        elif isinstance(n, ast.Call) and len(n.args) >= 2 and not any(isinstance(a, ast.Starred) for a in n.args):
-            for j in range(len(n.args) - 1):
-                if ast.dump(n.args[j]) != ast.dump(n.args[j + 1]):
-                    yield ("swap args %d,%d of %s @%d" % (j, j + 1, ast.unparse(n.func)[:30], n.lineno), i, ("swapargs", j))
-        elif isinstance(n, ast.Subscript) and isinstance(n.slice, ast.Slice) and n.slice.step is None:
-            if (n.slice.lower is None) != (n.slice.upper is None):
-                yield ("slice flip @%d" % n.lineno, i, ("sliceflip",))
-        elif isinstance(n, ast.Expr) and isinstance(n.value, ast.Call):
-            yield ("delete stmt `%s` @%d" % (ast.unparse(n)[:40], n.lineno), i, ("delstmt",))
-        elif isinstance(n, ast.Return) and n.value is not None and not isinstance(n.value, ast.Constant):
-            pass
-        elif isinstance(n, (ast.Break, ast.Continue)):
-            yield ("%s->%s @%d" % (type(n).__name__, "Continue" if isinstance(n, ast.Break) else "Break", n.lineno), i, ("brk",))
-        if isinstance(n, ast.Name) and isinstance(n.ctx, ast.Load):
-            pass
-
-
-def apply(fn, idx, m):
-    new = copy.deepcopy(fn)
-    nodes = list(ast.walk(new))
-    n = nodes[idx]
-    k = m[0]
-    if k == "cmp":
-        n.ops[m[1]] = m[2]()
-    elif k == "bin":
-        n.op = m[1]()
-    elif k == "bool":
-        n.op = m[1]()
-    elif k == "dropnot":
-        _replace(new, n, n.operand)
-    elif k == "const":
-        n.value = m[1]
-    elif k == "negif":
-        n.test = ast.UnaryOp(op=ast.Not(), operand=n.test)
-    elif k == "swapargs":
-        j = m[1]
-        n.args[j], n.args[j + 1] = n.args[j + 1], n.args[j]
-    elif k == "sliceflip":
-        n.slice.lower, n.slice.upper = n.slice.upper, n.slice.lower
-    elif k == "delstmt":
-        _replace(new, n, ast.Pass())
-    elif k == "brk":
-        _replace(new, n, ast.Continue() if isinstance(n, ast.Break) else ast.Break())
-    return new
-
-
-def _replace(root, old, new):
-    for p in ast.walk(root):
-        for fld, val in ast.iter_fields(p):
-            if val is old:
-                setattr(p, fld, new)
-                return
-            if isinstance(val, list):
-                for i, x in enumerate(val):
-                    if x is old:
-                        val[i] = new
-                        return
-
-
-def splice(src, fn, new):
-    ast.fix_missing_locations(new)
-    lines = src.splitlines(keepends=True)
-    start = (fn.decorator_list[0].lineno if fn.decorator_list else fn.lineno) - 1
-    end = fn.end_lineno
-    indent = len(lines[fn.lineno - 1]) - len(lines[fn.lineno - 1].lstrip())
-    text = textwrap.indent(ast.unparse(new), " " * indent) + "\n"
-    return "".join(lines[:start]) + text + "".join(lines[end:])
+from pta.mutants import sites, apply, _replace  # noqa: E402,F401
+from pta.refactor import splice  # noqa: E402
 
 
 BASE = None
